@@ -84,7 +84,7 @@ CHECKS = {
 PENDING = {
 }
 
-HOOK_COMMITS = ["ab27f8d", "598a995"]
+HOOK_COMMITS = ["ab27f8d", "598a995", "dffc40c"]
 
 def main():
     checks = []
